@@ -237,6 +237,46 @@ impl<'ast> Visit<'ast> for Paths {
     }
 }
 
+/// every `serialized_as = "..."` string in the file (trimmed, as typeshare sees it) with the
+/// syn::Type it parses to, for the model's FromStr oracle
+struct Tstrs(Vec<String>);
+impl Tstrs {
+    fn scan(&mut self, m: &Meta) {
+        if let Meta::List(l) = m {
+            if let Ok(p) = l.parse_args_with(Punctuated::<Meta, Token![,]>::parse_terminated) {
+                for x in p.iter() {
+                    if let Meta::NameValue(nv) = x {
+                        if nv.path.is_ident("serialized_as") {
+                            if let Expr::Lit(ExprLit { lit: Lit::Str(v), .. }) = &nv.value {
+                                let key = v.value().trim().to_string();
+                                let parsed = syn::parse_str::<syn::Type>(&key).ok().map(|t| ty(&t));
+                                self.0.push(format!("({} {})", s(&key), opt(parsed)));
+                            }
+                        }
+                    }
+                    self.scan(x);
+                }
+            }
+        }
+    }
+}
+impl<'ast> Visit<'ast> for Tstrs {
+    fn visit_attribute(&mut self, a: &'ast syn::Attribute) {
+        self.scan(&a.meta);
+    }
+}
+
+pub fn tstrs_sx(src: &str) -> String {
+    match syn::parse_file(src) {
+        Err(_) => "()".into(),
+        Ok(f) => {
+            let mut t = Tstrs(vec![]);
+            t.visit_file(&f);
+            lst(t.0)
+        }
+    }
+}
+
 pub fn file_sx(src: &str) -> Result<String, String> {
     let f = syn::parse_file(src).map_err(|e| e.to_string())?;
     let mut items = Items(vec![]);
@@ -251,7 +291,7 @@ pub fn file_sx(src: &str) -> Result<String, String> {
 pub fn handle(cmd: &str, v: &Value) -> Value {
     match cmd {
         "ast" => match file_sx(v["src"].as_str().unwrap()) {
-            Ok(sx) => json!({"ok": sx}),
+            Ok(sx) => json!({"ok": sx, "tstrs": tstrs_sx(v["src"].as_str().unwrap())}),
             Err(e) => json!({"err": e}),
         },
         "ast_type" => match syn::parse_str::<syn::Type>(v["src"].as_str().unwrap()) {
